@@ -33,6 +33,38 @@ func main() {
 		}
 		os.Exit(props.ReplayFile(prop, os.Args[3]))
 	}
+	if os.Args[2] == "--one" {
+		// vh <prop> --one <scenario> [bound] [devbound]: explore one scenario, print every finding
+		sc := props.Lookup(prop, os.Args[3])
+		if sc == nil {
+			fmt.Println("unknown scenario")
+			os.Exit(2)
+		}
+		pb, db := 1, 0
+		if len(os.Args) > 4 {
+			pb, _ = strconv.Atoi(os.Args[4])
+		}
+		if len(os.Args) > 5 {
+			db, _ = strconv.Atoi(os.Args[5])
+		}
+		st := explore.Iterative(sc, explore.Options{PBound: pb, DBound: db})
+		fmt.Printf("executions=%d completed=%d outcomes=%d\n", st.Execs, st.CompletedP, len(st.Outcomes))
+		for k, v := range st.Outcomes {
+			fmt.Printf("  outcome %6d  %s\n", v, k)
+		}
+		for i := range st.Viol {
+			v := &st.Viol[i]
+			err := explore.Confirm(sc, v)
+			fmt.Printf("FINDING %s choices=%v confirm=%v\n%s\n", v.Sig, v.Choices, err, v.Msg)
+			for _, l := range v.Trace {
+				fmt.Println("   move:", l)
+			}
+			for _, l := range v.Log {
+				fmt.Println("   log:", l)
+			}
+		}
+		os.Exit(0)
+	}
 	f := props.Registry[prop]
 	if f == nil {
 		fmt.Println("unknown property", prop)
